@@ -157,12 +157,30 @@ def run_family(pid, tier, rule, select, want=lambda p: True, cap=None, wrappers=
     res.rule = rule
     progs = generate(res, tier, wd, want, wrappers)
     if cap and len(progs) > cap[tier]:
+        # stratified, seeded sample: plain single solves / heuristic solves / several solves each get their share
         import random
         rnd = random.Random(seed() + 1)
-        keep = [p for p in progs if len(p["solves"]) == 1 and p["solves"][0]["heur"] == "none"]
-        rest = [p for p in progs if p not in keep]
-        rnd.shuffle(rest)
-        progs = (keep + rest)[:cap[tier]]
+        strata = {"plain": [], "heur": [], "multi": []}
+        for p in progs:
+            if len(p["solves"]) > 1:
+                strata["multi"].append(p)
+            elif p["solves"][0]["heur"] != "none":
+                strata["heur"].append(p)
+            else:
+                strata["plain"].append(p)
+        for v in strata.values():
+            rnd.shuffle(v)
+        share = dict(plain=0.5, heur=0.25, multi=0.25)
+        live = [k for k in strata if strata[k]]
+        tot = sum(share[k] for k in live)
+        out, left = [], []
+        for k in live:
+            n = int(cap[tier] * share[k] / tot)
+            out += strata[k][:n]
+            left += strata[k][n:]
+        rnd.shuffle(left)
+        progs = out + left[:max(0, cap[tier] - len(out))]
+        res.extra["program_strata"] = {k: len(v) for k, v in strata.items()}
     if transform:
         progs = [transform(p) for p in progs]
     progs = list(always) + progs
